@@ -295,6 +295,9 @@ func c11CheckInner(c c11Case) *evid.Fail {
 	}
 	// the frame-level path the proxy uses when it overrides a consistency (EncodeFrame)
 	// is exercised by C12; here also check the declared length
+	if len(b.CustomPayload) > 1 {
+		return nil // several payload entries: their wire order is Go's map iteration order (see above)
+	}
 	if n, err := codecs.CustomRawCodec.ConvertToRawFrame(&frame.Frame{Header: &frame.Header{Version: v, OpCode: op, Flags: flags}, Body: b}); err == nil {
 		if !bytes.Equal(n.Body, orig) {
 			return evid.Failf("rawframe-differs:"+where, "ConvertToRawFrame body differs from the original")
